@@ -108,7 +108,15 @@ def gen_body(rng, depth, lib, cfg, tags):
         elif r < 0.8:
             parts.insert(rng.randint(0, 1), ("INCONLY", extra)); tags.add("includeonly")
         else:
-            parts.insert(rng.randint(0, 1), ("COMMENT", " c {{x}} ")); tags.add("comment")
+            # comments may contain anything, also inclusion tags and calls: they are removed FIRST
+            ctext = rng.choice([" c {{x}} ", " <noinclude> ", " </noinclude> ", " <onlyinclude>z</onlyinclude> ", "<includeonly>",
+                                " {{{1}}} <noinclude>n</noinclude> ", " </includeonly> - ", "|", "-"])
+            parts.insert(rng.randint(0, len(parts)), ("COMMENT", ctext)); tags.add("comment")
+            if "include" in ctext:
+                tags.add("comment-with-inclusion-tag")
+                if rng.random() < 0.5:      # ... also inside / next to real inclusion sections
+                    extra2 = seq(rng, 1, [], True, cfg, tags)
+                    parts.append(("NOINC", ("S", [("T", "doc "), ("COMMENT", " </noinclude> "), ("T", " more"), extra2])))
     return ("S", parts)
 
 
